@@ -22,6 +22,19 @@ NAME = 'c19a'
 
 DEFCOLLS = [None, None, None, UCA, UCA + '?lang=it_IT', 'C', HTML_CI, 'it_IT.UTF-8', 'xx_XX.UTF-8']
 
+# evaluations that exercise the decimal module heavily: the decimal context must be left as found
+DECIMAL_EXPRS = [
+    "format-number(123456789012345678901234567890.125, '#.00')", "format-number(1 div 3, '0.0000000000000000000000000000000')",
+    "format-number(12345678901234567890123456789012345, '#,##0')", "xs:decimal('123456789012345678901234567890.123456789') * 3",
+    "round-half-to-even(12345678901234567890.12345678901234567890, 15)", "round(1234567890123456789012345678.5)",
+    "avg((0.1, 0.2, 0.3333333333333333333333333333))", "sum((1e0, 0.1, xs:decimal('1E-30')))", "1 div 3.0",
+    "xs:decimal(1e30) + 0.5", "12345678901234567890123456789 idiv 7", "123456789012345678901234567890 mod 97",
+    "xs:integer(xs:decimal('99999999999999999999999999999.9'))", "format-integer(123456789012345678901234567890, '#,##0')",
+    "math:pow(2, 100)", "xs:double('1e308') * 10", "xs:decimal('0.000000000000000000000000000001') div 3",
+    "string(xs:decimal('1.000000000000000000000000000000'))", "abs(-12345678901234567890123456789.123456789)",
+    "floor(12345678901234567890123456789.9) + ceiling(0.1)", "xs:float('3.4e38') * 10",
+]
+
 PROBES = [
     ("compare('a', 'B', 'C')", '2.0'),
     ("compare('a', 'B', '%s')" % UCA, '2.0'),
@@ -29,6 +42,8 @@ PROBES = [
     ("contains('ab', 'B', '%s')" % HTML_CI, '2.0'),
     ("index-of(('a', 'b'), 'b', 'POSIX')", '3.1'),
     ("compare('a', 'B')", '3.1'),
+    ("1 div 3.0", '3.1'),
+    ("avg((0.1, 0.2, 0.3333333333333333333333333333))", '3.1'),
 ]
 
 
@@ -60,6 +75,9 @@ def gen_case(rng, tier):
             continue
         g = CollGen(rng, version, installed, lock_bias)
         expr = g.expr()
+        if rng.random() < 0.12:
+            expr = rng.choice(DECIMAL_EXPRS)
+            version = '3.1'
         op = {'op': 'eval', 'expr': expr, 'v': version, 'defcoll': rng.choice(DEFCOLLS)}
         if x < gen_rate + 0.25 * (gen_rate > 0):
             op['op'] = 'open'
